@@ -1,3 +1,4 @@
+import errno
 import os
 import pathlib
 import signal
@@ -176,19 +177,36 @@ class RunTaskExecutable(Operation):
                 task_identifier=self._identifier, code=handle.returncode
             )
 
-        if self._serialize_args_options:
-            if not self._args.empty():
-                self._args.serialize_json(self._output_path / EXP_ARGS_JSON_FILE_NAME)
-            if not self._options.empty():
-                self._options.serialize_json(
-                    self._output_path / EXP_OPTION_JSON_FILE_NAME
-                )
+        try:
+            if self._serialize_args_options:
+                if not self._args.empty():
+                    self._args.serialize_json(
+                        self._output_path / EXP_ARGS_JSON_FILE_NAME
+                    )
+                if not self._options.empty():
+                    self._options.serialize_json(
+                        self._output_path / EXP_OPTION_JSON_FILE_NAME
+                    )
 
-        if self._version_to_record is not None:
-            ctx.version_index.insert_output_version(
-                self._identifier, self._version_to_record
+            if self._version_to_record is not None:
+                if not self._output_path.is_dir():
+                    # N.B. We must never record a version without its outputs.
+                    raise FileNotFoundError(
+                        errno.ENOENT,
+                        "The task's output directory no longer exists",
+                        str(self._output_path),
+                    )
+                ctx.version_index.insert_output_version(
+                    self._identifier, self._version_to_record
+                )
+                ctx.version_index.commit_changes()
+
+        except OSError as ex:
+            # The task ran, but we cannot record its results (e.g., because the
+            # task removed its own output directory).
+            raise TaskFailed(task_identifier=self._identifier).add_extra_context(
+                "The task's results could not be recorded: {}".format(ex)
             )
-            ctx.version_index.commit_changes()
 
     @property
     def parallelizable(self) -> bool:
